@@ -279,12 +279,13 @@ def alias_kept(t):
     """positions where sqlframe takes `.expression` (an Alias node survives): outside the modelled fragment"""
     out = []
     k = t[0]
+    AL = ("alias", "when")      # F.when(...) results carry an automatic alias (the @meta decorator)
     if k == "between":
-        out += ["between-bound"] * sum(1 for x in (t[2], t[3]) if x[0] == "alias")
-    if k == "startswith" and t[2][0] == "alias":
+        out += ["between-bound"] * sum(1 for x in (t[2], t[3]) if x[0] in AL)
+    if k == "startswith" and t[2][0] in AL:
         out.append("startswith-argument")
     if k == "substr":
-        out += ["substr-argument"] * sum(1 for x in (t[2], t[3]) if x[0] == "alias")
+        out += ["substr-argument"] * sum(1 for x in (t[2], t[3]) if x[0] in AL)
     for c in T.children(t):
         out += alias_kept(c)
     return out
@@ -306,10 +307,20 @@ CORPUS = [
     ("isnull", ("bin", "==", ("col", "a"), ("col", "b"))),
     ("isnull", ("not", ("col", "p"))),
     ("isnull", ("isnotnull", ("col", "a"))),
-    ("bin", "==", ("rbin", "&", False, ("col", "p")), ("col", "q")),
     ("bin", "*", ("neg", ("bin", "+", ("col", "a"), ("col", "b"))), ("rbin", "-", 1, ("col", "a"))),
     ("bin", "&", ("bin", "|", ("col", "p"), ("bin", "<", ("col", "a"), ("py", 1))), ("not", ("bin", "&", ("col", "p"), ("col", "q")))),
 ]
+
+
+def double_cast(t):
+    """cast(x, ty).cast(ty): sqlglot's exp.cast drops the second one (idempotent; outside the modelled fragment)"""
+    if t[0] == "cast":
+        a = t[1]
+        while a[0] == "alias":
+            a = a[1]
+        if a[0] == "cast" and a[2] == t[2]:
+            return True
+    return any(double_cast(c) for c in T.children(t))
 
 
 def make_trees(ctx):
@@ -326,7 +337,7 @@ def make_trees(ctx):
     for src, ts in (("corpus", CORPUS), ("exhaustive", exh), ("random", rand)):
         for t in ts:
             k = repr(t)
-            if k not in seen:
+            if k not in seen and not double_cast(t):
                 seen.add(k)
                 out.append((src, t))
     return out, len(exh)
@@ -542,6 +553,8 @@ def run(ctx: core.Ctx):
         ctx.broken(key, f"{len(v)} trees; smallest: {v[0]['python']}", data=v[:5])
     for key, (t, bad, desc) in first.items():
         ctx.deviation(key, f"{T.to_src(t)}: {bad}", desc)
+    ctx.coverage["deviation_examples"] = {k: {"python": T.to_src(t), "sql": d.get("sql_sent"), "what": bad, "unsafe_subtrees": d["unsafe_subtrees"]}
+                                          for k, (t, bad, d) in sorted(first.items())}
     # ---- spec vs PySpark recordings
     n_rec = n_rec_ok = 0
     if os.path.exists(ORACLE):
